@@ -60,7 +60,9 @@ D_WRAPVM = [d_tlc("MC_WrapVM: register machine, all programs of <= 3 steps on 9 
                   "MC_WrapVM", "MC_WrapVM.cfg", "int")]
 DESIGNS = {
     "C01": [D_SEM] + D_MUL + D_DIV, "C02": [D_SEM] + D_MUL[:2], "C03": [D_SEM] + D_CMP, "C04": [D_SEM], "C06": [D_SEM],
-    "C07": [D_SEM] + D_EUCLID, "C09": D_FMT, "C11": D_MUL[2:6], "C18": D_WRAPVM,
+    "C07": [D_SEM] + D_EUCLID, "C09": D_FMT,
+    "C08": [d_tlc("MC_Parse: tokeniser as coded = grammar, every string up to length 5 over 10 symbols x 4 radices", "MC_Parse",
+                  "MC_Parse_5.cfg", "int")], "C11": D_MUL[2:6], "C18": D_WRAPVM,
 }
 
 
@@ -260,6 +262,20 @@ def plan_profile(pid, tier, seed):
     )
 
 
+def gen_tie_literals(wdir, tier, seed):
+    """spec -> impl: TLC (tla/mc/Gen_Ties, exact BigInt arithmetic) prints the decimal expansions of rounding ties and their
+    neighbours; written to <wdir>/tie_literals.ndjson for the text bin's --replay mode"""
+    r = core.tlc_model("Gen_Ties", "Gen_Ties.cfg", "big", workers=1, timeout=900)
+    lits = []
+    for m in re.finditer(r'<<"LIT", "(.*)">>', r["out"]):
+        lits.append(m.group(1).replace('\\"', '"'))
+    if len(lits) < 1000:
+        raise core.ToolError("Gen_Ties produced only %d literals:\n%s" % (len(lits), r["out"][-2000:]))
+    with open(os.path.join(wdir, "tie_literals.ndjson"), "w") as f:
+        f.write("\n".join(lits) + "\n")
+    log("[C08] %d tie literals generated by TLC from the specification" % len(lits))
+
+
 def plan_text(pid, tier, seed):
     topics = {"C08": "tokens,ties,dec,radix,malformed", "C09": "fmt"}[pid]
     gens = [dict(name="text", profile="unchecked", bin="text", dom="big", per_shard=2500 if pid == "C09" else 1500,
@@ -274,7 +290,7 @@ def plan_text(pid, tier, seed):
                "exact expansion of (2k+1)/2^(f+1) for boundary and random k, its proper prefixes, +-1 in the last place, the tie "
                "followed by 0..01 / 000 / 9999, with sign; (c) random decimals with 0..60 (occasionally 200) fractional digits and "
                "integer parts at the range edge; (d) exact binary/octal/hex expansions of lattice values with half-digit tails and "
-               "integer parts at/over the overflow edge; (e) 10 000-digit literals. from_str*, saturating_, wrapping_, overflowing_ "
+               "integer parts at/over the overflow edge; (e) 2 500-digit (thorough: 10 000-digit) literals; (f) tie literals computed by TLC from the specification (tla/mc/Gen_Ties) and replayed. from_str*, saturating_, wrapping_, overflowing_ "
                "forms judged against ParseR = RNE of the exact rational of the literal (tla/sem/SemText.tla).",
         "C09": "every value of every 8-bit layout and lattice+random values of 88 wider layouts x Display/Debug/Binary/Octal/"
                "LowerHex/UpperHex x precisions {none,0,1,3,8,20,(200)} ({none,1,3} for the radix-2^k traits) x 3 of 14 flag templates "
@@ -282,8 +298,13 @@ def plan_text(pid, tier, seed):
                "digits shown (and parse back exactly when the precision is automatic, also through the real FromStr); flagged "
                "outputs must be pad(sign ++ prefix ++ body).",
     }
+    pre = []
+    if pid == "C08":
+        pre = [gen_tie_literals]
+        gens.append(dict(name="tlcties", profile="unchecked", bin="text", dom="big", per_shard=1500, replayable=False,
+                         args=["--replay", os.path.join(core.WORK, pid, "tie_literals.ndjson")]))
     return dict(
-        bins=["text"], profiles=["unchecked"], gens=gens, designs=[],
+        bins=["text"], profiles=["unchecked"], gens=gens, designs=[], pre_gen=pre,
         nontrivial=lambda line: '"a":[0],' not in line and '"s":[]' not in line,
         rule=rules[pid] + " Plus a light sweep (a few literals / values per layout) over ALL 506 layouts. "
              "Non-trivial: value / literal not empty or zero; distinct by event content.",
@@ -415,6 +436,8 @@ def run_check(pid, tier, seed, replay=None):
                 gg["args"] = [a for a in g["args"]] + ["--replay", rfile]
                 gens.append(gg)
     tg = time.time()
+    for pre in plan.get("pre_gen", []):
+        pre(wdir, tier, seed)
     for g in gens:
         path = core.gen_trace(pid, g["name"], g["profile"], g["bin"], g["args"])
         traces.append((path, g["dom"], g["per_shard"]))
